@@ -141,8 +141,47 @@ def cat_ranges(cat):
     return _CATS[cat]
 
 
+_CATRE = {}
+_CONC_CAT = {}
+
+
+def conc_in_cat(cat, c):
+    """concrete character against a category, by asking `re` itself (cached)"""
+    k = (cat, c)
+    if k not in _CONC_CAT:
+        if cat not in _CATRE:
+            _CATRE[cat] = re.compile({sre_c.CATEGORY_DIGIT: r'\d', sre_c.CATEGORY_SPACE: r'\s', sre_c.CATEGORY_WORD: r'\w'}[cat])
+        _CONC_CAT[k] = _CATRE[cat].match(chr(c)) is not None
+    return _CONC_CAT[k]
+
+
+_SYM_CAT = {}
+
+
 def class_test(items, c):
     """items: sre IN items; returns bool formula that char c (>=0) is in class."""
+    if is_conc(c):
+        if c < 0:
+            return False
+        neg = False
+        hit = False
+        for op, av in items:
+            if op is sre_c.NEGATE:
+                neg = True
+            elif op is sre_c.LITERAL:
+                hit = hit or (c == av)
+            elif op is sre_c.RANGE:
+                hit = hit or (av[0] <= c <= av[1])
+            elif op is sre_c.CATEGORY:
+                m = {sre_c.CATEGORY_NOT_DIGIT: sre_c.CATEGORY_DIGIT, sre_c.CATEGORY_NOT_SPACE: sre_c.CATEGORY_SPACE,
+                     sre_c.CATEGORY_NOT_WORD: sre_c.CATEGORY_WORD}
+                if av in m:
+                    hit = hit or (not conc_in_cat(m[av], c))
+                else:
+                    hit = hit or conc_in_cat(av, c)
+            else:
+                raise NotImplementedError(op)
+        return (not hit) if neg else hit
     neg = False
     tests = []
     for op, av in items:
@@ -161,7 +200,10 @@ def class_test(items, c):
             if cat in m:
                 negcat = True
                 cat = m[cat]
-            t = b_or(*[ch_in_range(c, lo, hi) for lo, hi in cat_ranges(cat)])
+            key = (cat, c.get_id())
+            if key not in _SYM_CAT:
+                _SYM_CAT[key] = b_or(*[ch_in_range(c, lo, hi) for lo, hi in cat_ranges(cat)])
+            t = _SYM_CAT[key]
             tests.append(b_not(t) if negcat else t)
         else:
             raise NotImplementedError(op)
